@@ -99,3 +99,107 @@ def loops(body):
     for t, h in back_edges(body):
         by_head.setdefault(h, set()).update(natural_loop(body, t, h))
     return sorted(by_head.items())
+
+
+# ---------------------------------------------------------------------------------------------------------------------
+# path-sensitive variant of path_exists: infeasible paths through `Some(x)?` / bool temporaries are not followed
+
+def _const_int(op):
+    c = op.get("const") if isinstance(op, dict) else None
+    return c.get("int") if c else None
+
+
+def _bare_local(op):
+    if not isinstance(op, dict):
+        return None
+    pl = op.get("copy") or op.get("move")
+    if pl is not None and not pl["p"]:
+        return pl["l"]
+    return None
+
+
+def _step_env(body, blk, env):
+    """abstract values of locals after the statements of `blk`: ('int', n) | ('variant', index)"""
+    e = dict(env)
+    for s_ in body.blocks[blk]["s"]:
+        a = s_.get("a")
+        if not a or a["p"]:
+            continue
+        rv = s_.get("rv") or {}
+        v = None
+        if "use" in rv:
+            n = _const_int(rv["use"])
+            if n is not None:
+                v = ("int", n)
+            else:
+                src = _bare_local(rv["use"])
+                v = e.get(src) if src is not None else None
+        elif isinstance(rv.get("agg"), dict) and "vidx" in rv["agg"]:
+            v = ("variant", rv["agg"]["vidx"])
+        elif "discr" in rv and not rv["discr"]["p"]:
+            src = e.get(rv["discr"]["l"])
+            if src and src[0] == "variant":
+                v = ("int", src[1])
+        if v is None:
+            e.pop(a["l"], None)
+        else:
+            e[a["l"]] = v
+    return e
+
+
+def feasible_path_exists(body, src, dst_pred, avoid=frozenset(), include_src=False, limit=40000):
+    """like path_exists, but tracks constants and enum variants held by whole locals along the path and follows only the
+    matching arm of a switch on such a local; `Try::branch` of a known Some/Ok yields Continue, of None/Err Break.
+    Over-approximates feasibility (unknown values follow every arm): `None` is a proof that no feasible path exists."""
+    start = [src] if include_src else list(body.succ(src))
+    seen = set()
+    st = []
+    env0 = frozenset()
+    if not include_src:
+        env0 = frozenset(_after_term(body, src, _step_env(body, src, {})).items())
+    for s in start:
+        st.append((s, env0, (s,)))
+    n = 0
+    while st:
+        blk, env, path = st.pop()
+        if blk in avoid or body.is_cleanup(blk) or (blk, env) in seen:
+            continue
+        seen.add((blk, env))
+        n += 1
+        if n > limit:
+            return list(path)          # give up: report as feasible
+        if dst_pred(blk):
+            return list(path)
+        e = _step_env(body, blk, dict(env))
+        t = body.blocks[blk]["term"]
+        nxt = body.succ(blk)
+        if t["k"] == "switch":
+            dl = _bare_local(t["d"])
+            if dl is not None and e.get(dl, ("?",))[0] == "int":
+                nxt = [dict((v, tg) for v, tg in t["arms"]).get(e[dl][1], t["else"])]
+        e = _after_term(body, blk, e)
+        fe = frozenset(e.items())
+        for x in nxt:
+            st.append((x, fe, path + (x,) if len(path) < 60 else path))
+    return None
+
+
+def _after_term(body, blk, e):
+    t = body.blocks[blk]["term"]
+    if t["k"] == "call" and t.get("dest") and not t["dest"]["p"]:
+        f = (t["f"].get("fn") or "")
+        v = None
+        if f.endswith("as std::ops::Try>::branch") and t["args"]:
+            src = _bare_local(t["args"][0])
+            sv = e.get(src) if src is not None else None
+            if sv and sv[0] == "variant":
+                if "option::Option" in f:
+                    v = ("variant", 0 if sv[1] == 1 else 1)      # Some -> Continue, None -> Break
+                elif "result::Result" in f:
+                    v = ("variant", 0 if sv[1] == 0 else 1)      # Ok -> Continue, Err -> Break
+        e = dict(e)
+        if v is None:
+            e.pop(t["dest"]["l"], None)
+        else:
+            e[t["dest"]["l"]] = v
+    return e
